@@ -1,0 +1,15 @@
+//go:build verif
+
+package cache
+
+import (
+	"time"
+
+	"github.com/rogpeppe/go-internal/internal/verifhook"
+)
+
+// VerifSetHook installs the perturbation hook (see internal/verifhook).
+func VerifSetHook(f func(point string)) { verifhook.Set(f) }
+
+// VerifSetNow replaces the cache's clock.
+func (c *Cache) VerifSetNow(now func() time.Time) { c.now = now }
